@@ -337,6 +337,85 @@ def body_read_struct(h, k):
     S.prove_only_written(h, 'memory_unchanged', [])
 
 
+def body_read_struct_nested(h, pos):
+    """read_struct on a record with a nested-record field at position `pos` of three fields.  The nested call is
+    replaced by read_struct's own contract (induction on nesting depth): it returns a QStruct with the nested type's
+    field names - whose NUMBER says nothing about how many cells the nested record occupies (its own fields may be
+    records).  The cells it occupies are get_type_size's (contract: ghost size).  Fields behind the nested one must be
+    read from base + (sizes of the fields before them)."""
+    from pyvc.interp import func_info
+    ctx = Ctx()
+    sz = h.int('nested_size', 1, 40)
+    inner, deep = udt('inner'), udt('deep')
+    tbi = object.__new__(TypeBlock)
+    tbi.name = 'inner'
+    tbi.fields = {'g': deep}
+    ctx.user_types['inner'] = tbi
+    if not h.symbolic:
+        tbd = object.__new__(TypeBlock)
+        tbd.name = 'deep'
+        tbd.fields = {f'd{i}': Type.INTEGER for i in range(sz)}
+        ctx.user_types['deep'] = tbd
+    ftypes = [Type.INTEGER, Type.LONG]
+    ftypes.insert(pos, inner)
+    tb = object.__new__(TypeBlock)
+    tb.name = 'rec'
+    tb.fields = {f'f{i}': ft for i, ft in enumerate(ftypes)}
+    ctx.user_types['rec'] = tb
+    base = h.int('base', 0, 50)
+    offs, o = [], 0
+    for ft in ftypes:
+        offs.append(o)
+        o = o + (sz if ft is inner else 1)
+    cells, special = {}, []
+    for i, ft in enumerate(ftypes):
+        if ft is inner:
+            continue
+        cells[i] = mkcell(h, CT.INTEGER if ft is Type.INTEGER else CT.LONG, f'fv{i}')
+        special.append((base + offs[i], cells[i]))
+    S = Seg(h, 'seg', special=special, other_type=CT.INTEGER, unset=False, size=h.int('seg.size', 200, 300))
+    r = Rtn()
+    r.context = ctx
+    ev = mk_eval(h, new_cpu(h, []), r)
+    nested_at = []
+    if h.symbolic:
+        depth = [0]
+
+        def c_read_struct(interp, f, args, kwargs):
+            depth[0] += 1
+            try:
+                if depth[0] == 1:
+                    return interp.call_real_function(f, func_info(f), args, kwargs)
+                _self, seg, idx, tt = args
+                nested_at.append((seg, idx, tt))
+                return QStruct(tt.name, {'g': (QStruct('deep', {}), deep)})
+            finally:
+                depth[0] -= 1
+
+        def c_type_size(interp, f, args, kwargs):
+            tt = args[1]
+            if tt.is_user_defined and not tt.is_array:
+                if tt.user_type_name != 'inner':
+                    raise AssertionError('size of an undeclared child type asked')
+                return sz
+            return 1
+        h.set_call('qvm.eval.QvmEval.read_struct', c_read_struct)
+        h.set_call(QN, c_type_size)
+    out = h.call(ev.read_struct, S.seg, base, udt('rec'))
+    if not out.returned:
+        h.prove('no_exception', False, detail=repr(out))
+        return
+    st = out.value
+    h.prove('is_struct', isinstance(st, QStruct) and list(st.contents) == [f'f{i}' for i in range(3)])
+    if h.symbolic:
+        h.prove('nested_record_read_once_at_its_own_offset',
+                len(nested_at) == 1 and nested_at[0][0] is S.seg and same(nested_at[0][1], base + offs[pos]))
+    for i in cells:
+        v, ft = st.contents[f'f{i}']
+        h.prove(f'field{i}_is_read_behind_all_cells_of_the_fields_before_it', same(v, cells[i].value))
+    S.prove_only_written(h, 'memory_unchanged', [])
+
+
 def body_read_array(h, bounds, E):
     """bounded: read_array + QArray.at address the same cell as the machine's arridx (row-major), for concrete small
     bounds; cell values symbolic"""
@@ -386,6 +465,8 @@ CONTRACTS = [
              cases=[(t, s) for t in VALUE_TYPES for s in ('set', 'unset', 'ref')]),
     Contract('eval.after_finish', ['C13'], ['qvm.eval:QvmEval.eval_lvalue'], body_eval_finished),
     Contract('eval.read_struct', ['C13'], ['qvm.eval:QvmEval.read_struct'], body_read_struct, cases=[(1,), (2,), (4,)]),
+    Contract('eval.read_struct.nested', ['C13'], ['qvm.eval:QvmEval.read_struct', 'qvm.memlayout:get_type_size'], body_read_struct_nested,
+             cases=[(0,), (1,), (2,)]),
     Contract('eval.read_array', ['C13'], ['qvm.eval:QvmEval.read_array', 'qvm.eval:QArray.at'], body_read_array,
              cases=[([(0, 2)], 1), ([(1, 2), (0, 2)], 1), ([(-1, 0), (5, 6), (0, 1)], 1), ([(0, 1), (3, 4)], 2)],
              bounded='rank <= 3, extents <= 3, concrete bounds (cell values symbolic)'),
